@@ -118,9 +118,15 @@ func sweepInputs(n *Node) []sweepInput {
 		}
 	}
 	// (7) transactions that were not requested
+	// ("requested" is judged from the current proposal, not from the library's own MissingTransactions list: a hash
+	// that the current view's proposal does not name was not requested for it. A transaction of the proposal that the
+	// node already holds is not offered: the library asks for missing transactions again on a recovery request, so the
+	// application may legitimately supply one twice)
 	out = append(out, sweepInput{class: "unrequested-tx", tx: H(0x7777)})
-	if !slices.Contains(c.MissingTransactions, H(101)) {
-		out = append(out, sweepInput{class: "unrequested-tx", tx: H(101)})
+	for t := H(101); t <= 106; t++ {
+		if !slices.Contains(c.TransactionHashes, t) || !c.RequestSentOrReceived() {
+			out = append(out, sweepInput{class: "unrequested-tx", tx: t})
+		}
 	}
 	// (8) timeouts tagged with another height or view
 	out = append(out, sweepInput{class: "foreign-timeout", th: h - 1, tv: v}, sweepInput{class: "foreign-timeout", th: h + 1, tv: v},
